@@ -1,0 +1,203 @@
+//go:build verif
+
+// Accessors for the verification harness in /verif.
+// Compiled only with -tags verif; adds exported functions and nothing else.
+
+package reedsolomon
+
+// VerifOpts reports the derived options of an encoder.
+type VerifOpts struct {
+	Kind                                     string // "rs8", "leo8", "leo16"
+	Data, Parity                             int
+	PerRound, MinSplitSize, MaxGoroutines    int
+	ShardSize, VectorLength                  int
+	SSE2, SSSE3, AVX2, AVX512, GFNI, AVXGFNI bool
+	CodeGen, Pshufb                          bool
+	InversionCache, LeoCache                 bool
+}
+
+func verifOpts(o *options) VerifOpts {
+	return VerifOpts{
+		PerRound: o.perRound, MinSplitSize: o.minSplitSize, MaxGoroutines: o.maxGoroutines,
+		ShardSize: o.shardSize, VectorLength: o.vectorLength,
+		SSE2: o.useSSE2, SSSE3: o.useSSSE3, AVX2: o.useAVX2, AVX512: o.useAVX512,
+		GFNI: o.useAvx512GFNI, AVXGFNI: o.useAvxGNFI,
+		CodeGen: codeGen, Pshufb: pshufb,
+	}
+}
+
+// VerifOptions returns the derived options of e.
+func VerifOptions(e Encoder) VerifOpts {
+	switch r := e.(type) {
+	case *reedSolomon:
+		v := verifOpts(&r.o)
+		v.Kind, v.Data, v.Parity = "rs8", r.dataShards, r.parityShards
+		v.InversionCache = r.tree != nil
+		return v
+	case *leopardFF8:
+		v := verifOpts(&r.o)
+		v.Kind, v.Data, v.Parity = "leo8", r.dataShards, r.parityShards
+		v.LeoCache = r.inversion != nil
+		return v
+	case *leopardFF16:
+		v := verifOpts(&r.o)
+		v.Kind, v.Data, v.Parity = "leo16", r.dataShards, r.parityShards
+		return v
+	}
+	return VerifOpts{Kind: "unknown"}
+}
+
+// VerifStreamOptions returns the derived options of a stream encoder.
+func VerifStreamOptions(e StreamEncoder) (VerifOpts, int, bool, bool) {
+	if r, ok := e.(*rsStream); ok {
+		return VerifOptions(r.r), r.o.streamBS, r.o.concReads, r.o.concWrites
+	}
+	return VerifOpts{Kind: "unknown"}, 0, false, false
+}
+
+// VerifMatrix returns a copy of the coding matrix of a GF(2^8) matrix encoder.
+func VerifMatrix(e Encoder) [][]byte {
+	r, ok := e.(*reedSolomon)
+	if !ok {
+		return nil
+	}
+	res := make([][]byte, len(r.m))
+	for i := range r.m {
+		res[i] = append([]byte(nil), r.m[i]...)
+	}
+	return res
+}
+
+// Static tables.
+func VerifStaticTables() (logT, expT, invT [256]byte, mul [256][256]byte, low, high [256][16]byte, gfni [256]uint64) {
+	return logTable, expTable, invTable, mulTable, mulTableLow, mulTableHigh, gf2p811dMulMatrices
+}
+
+// Scalar field functions.
+func VerifGalMultiply(a, b byte) byte               { return galMultiply(a, b) }
+func VerifGalDivide(a, b byte) byte                 { return galDivide(a, b) }
+func VerifGalOneOver(a byte) byte                   { return galOneOver(a) }
+func VerifGalExp(a byte, n int) byte                { return galExp(a, n) }
+func VerifCeilPow2(n int) int                       { return ceilPow2(n) }
+func VerifShardSize(s [][]byte) int                 { return shardSize(s) }
+func VerifCheckShards(s [][]byte, nilok bool) error { return checkShards(s, nilok) }
+
+// VerifInvert inverts a square matrix with the package's Gaussian elimination.
+func VerifInvert(m [][]byte) ([][]byte, error) {
+	mm, err := newMatrixData(m)
+	if err != nil {
+		return nil, err
+	}
+	res, err := mm.Invert()
+	return [][]byte(res), err
+}
+
+// Matrix builders.
+func VerifBuildMatrix(kind string, d, total int) ([][]byte, error) {
+	var m matrix
+	var err error
+	switch kind {
+	case "default":
+		m, err = buildMatrix(d, total)
+	case "cauchy":
+		m, err = buildMatrixCauchy(d, total)
+	case "par1":
+		m, err = buildMatrixPAR1(d, total)
+	case "jerasure":
+		m, err = buildMatrixJerasure(d, total)
+	case "xor":
+		m, err = buildXorMatrix(d, total)
+	case "vandermonde":
+		m, err = vandermonde(total, d)
+	}
+	return [][]byte(m), err
+}
+
+// VerifTree wraps the inversion tree.
+type VerifTree struct{ t *inversionTree }
+
+func VerifNewTree(d, p int) *VerifTree { return &VerifTree{newInversionTree(d, p)} }
+func (v *VerifTree) Get(invalid []int) [][]byte {
+	return [][]byte(v.t.GetInvertedMatrix(invalid))
+}
+func (v *VerifTree) Insert(invalid []int, m [][]byte, shards int) error {
+	return v.t.InsertInvertedMatrix(invalid, matrix(m), shards)
+}
+
+// Leopard GF(2^8) run-time tables.
+func VerifLeoTables8() (logLUT, expLUT [256]uint8, skew [255]uint8, walsh [256]uint8, mul [256][256]uint8, mul256 [256][32]byte) {
+	initConstants8()
+	for i := range logLUT {
+		logLUT[i] = uint8(logLUT8[i])
+		expLUT[i] = uint8(expLUT8[i])
+		walsh[i] = uint8(logWalsh8[i])
+		for j := range mul[i] {
+			mul[i][j] = uint8(mul8LUTs[i].Value[j])
+		}
+		mul256[i] = multiply256LUT8[i]
+	}
+	for i := range skew {
+		skew[i] = uint8(fftSkew8[i])
+	}
+	return
+}
+
+// Leopard GF(2^16) run-time tables (log, exp, skew, walsh); the large product tables are
+// read through VerifLeoMul16.
+func logLUT16(i int) ffe { return logLUT[i] }
+func expLUT16(i int) ffe { return expLUT[i] }
+
+func VerifLeoTables16() (logLUT, expLUT []uint16, skew []uint16, walsh []uint16) {
+	initConstants()
+	logLUT = make([]uint16, order)
+	expLUT = make([]uint16, order)
+	walsh = make([]uint16, order)
+	skew = make([]uint16, modulus)
+	for i := 0; i < order; i++ {
+		logLUT[i] = uint16(logLUT16(i))
+		expLUT[i] = uint16(expLUT16(i))
+		walsh[i] = uint16(logWalsh[i])
+	}
+	for i := 0; i < modulus; i++ {
+		skew[i] = uint16(fftSkew[i])
+	}
+	return
+}
+
+// VerifLeoMul16 returns the Lo and Hi partial product tables for log_m.
+func VerifLeoMul16(logM int) (lo, hi [256]uint16) {
+	initConstants()
+	for i := 0; i < 256; i++ {
+		lo[i] = uint16(mul16LUTs[logM].Lo[i])
+		hi[i] = uint16(mul16LUTs[logM].Hi[i])
+	}
+	return
+}
+
+// VerifLeoMul256 returns the SIMD nibble tables for log_m (nil if not built on this CPU).
+func VerifLeoMul256(logM int) []byte {
+	initConstants()
+	if multiply256LUT == nil {
+		return nil
+	}
+	return append([]byte(nil), multiply256LUT[logM][:]...)
+}
+
+// VerifErrorBitfield8 exposes the GF8 error bit field.
+type VerifErrorBitfield8 struct{ e errorBitfield8 }
+
+func (v *VerifErrorBitfield8) Set(i int)                      { v.e.set(i) }
+func (v *VerifErrorBitfield8) Prepare()                       { v.e.prepare() }
+func (v *VerifErrorBitfield8) IsNeeded(mip, bit int) bool     { return v.e.isNeeded(mip, bit) }
+func (v *VerifErrorBitfield8) CacheID() [inversion8Bytes]byte { return v.e.cacheID() }
+func (v *VerifErrorBitfield8) Words() [7][kWords8]uint64      { return v.e.Words }
+
+// VerifErrorBitfield exposes the GF16 error bit field.
+type VerifErrorBitfield struct{ e errorBitfield }
+
+func (v *VerifErrorBitfield) Set(i int)                  { v.e.set(i) }
+func (v *VerifErrorBitfield) Prepare()                   { v.e.prepare() }
+func (v *VerifErrorBitfield) IsNeeded(mip, bit int) bool { return v.e.isNeeded(mip, uint(bit)) }
+
+// Stream helpers.
+func VerifTrimShards(in [][]byte, size int) [][]byte { return trimShards(in, size) }
